@@ -511,7 +511,17 @@ func fuzz(r *rand.Rand, par, n int, only string) {
 		ngen := total / 10
 		for i := 0; i < ngen; i++ {
 			_, bin := genSeed(r)
-			c := mkCase(fmt.Sprintf("gen-%d", i), "gen-valid", []string{"v2", "v2x"}[i%2], bin, "valid")
+			note := "valid"
+			if i%3 == 0 {
+				// custom sections may appear anywhere after the header, with any name and any payload - including none
+				name := []string{"foo", "", "producers", ".debug_info", ".debug_line", "a.b"}[r.Intn(6)]
+				payload := make([]byte, []int{0, 0, 1, 7}[r.Intn(4)])
+				sec := append([]byte{0}, u32(uint64(1+len(name)+len(payload)))...)
+				sec = append(append(append(sec, byte(len(name))), name...), payload...)
+				bin = append(append([]byte{}, bin...), sec...) // as the LAST section of the module
+				note = fmt.Sprintf("valid + trailing custom section %q with %d payload bytes", name, len(payload))
+			}
+			c := mkCase(fmt.Sprintf("gen-%d", i), "gen-valid", []string{"v2", "v2x"}[i%2], bin, note)
 			c.MustAccept = true
 			add(c)
 		}
